@@ -5,6 +5,7 @@
 //! trusted: rule R7 splits or-pattern match arms into one arm per alternative
 //! trusted: R15 (deep slice): remove_stale_payments runs a retain closure under two mutexes; the unit extracts the tick / keep statement of the Fulfilled arm verbatim as a function of (no_remaining_entries, the tick counter); the scan of pending events that computes no_remaining_entries is dropped and not claimed
 //! trusted: R15 (deep slice): OutboundPayments::fail_htlc decodes the onion failure and works on a HashMap entry under a mutex; the unit extracts the whole per-payment block of the Occupied arm verbatim as a function of the payment (checked against the proved contracts of remove / is_fulfilled / mark_abandoned above); `payment.get()/get_mut()` become the reference itself, `payment.remove()` sets a flag, `return;` returns None (R5); is_auto_retryable_now / insert_previously_failed_* are external_body (retry strategy opaque; frame assumed); Event reduced to PaymentFailed; the path events built afterwards are dropped and not claimed
+//! trusted: R15 (deep slice): OutboundPayments::claim_htlc: the whole per-payment block of the Occupied arm verbatim as a function of the payment and the event queue (a Vec here; push_back -> push); Sha256::hash(..).to_byte_array() is the external_body wrapper sha256 (R8); Event reduced to the three variants used
 //! assume: fail_htlc: a failure attributed to a blinded path carries no short_channel_id and the failed path has a blinded tail (debug_asserts on decode_onion_failure's result)
 //! assume: callers keep the representation invariant pending_amt_msat >= value of every in-flight path (and pending_fee_msat >= its fee); remove()/insert() are not called on pre-HTLC states (LDK's debug_assert!(false) arms)
 use vstd::prelude::*;
@@ -225,7 +226,14 @@ impl PendingOutboundPayment {
 pub struct BlindedTail {}
 pub struct FailPath { pub p: Path, pub blinded_tail: Option<BlindedTail> }
 #[derive(Clone, Copy)] pub struct PaymentId(pub [u8; 32]);
-pub enum Event { PaymentFailed { payment_id: PaymentId, payment_hash: Option<PaymentHash>, reason: Option<PaymentFailureReason> } }
+pub enum Event {
+    PaymentFailed { payment_id: PaymentId, payment_hash: Option<PaymentHash>, reason: Option<PaymentFailureReason> },
+    PaymentSent { payment_id: Option<PaymentId>, payment_preimage: PaymentPreimage, payment_hash: PaymentHash, amount_msat: Option<u64>, fee_paid_msat: Option<u64>, bolt12_invoice: Option<PaidBolt12Invoice> },
+    PaymentPathSuccessful { payment_id: PaymentId, payment_hash: Option<PaymentHash>, path: FailPath, hold_times: Vec<u32> },
+}
+pub struct EventCompletionAction {}
+pub uninterp spec fn sha256_spec(b: [u8; 32]) -> [u8; 32];
+#[verifier::external_body] pub fn sha256(b: &[u8; 32]) -> (r: [u8; 32]) ensures r == sha256_spec(*b) { unimplemented!() }
 impl PendingOutboundPayment {
 //@extract lightning/src/ln/outbound_payment.rs :: impl PendingOutboundPayment :: fn remaining_parts
 //@r7
@@ -298,6 +306,59 @@ impl PendingOutboundPayment {
     if payment.get().is_fulfilled() {
 //@with
     if false {
+//@end
+
+// ---- a claimed HTLC: PaymentSent is reported exactly once and truthfully (deep R15 slice of OutboundPayments::claim_htlc) ----
+//@extract lightning/src/ln/outbound_payment.rs :: impl OutboundPayments :: fn claim_htlc
+//@strip events
+//@slice R15
+    if let hash_map::Entry::Occupied(mut payment) = outbounds.entry(payment_id) { $body:any } else { $dup:any }
+//@with
+    fn claim_htlc_on_payment(payment: &mut PendingOutboundPayment, payment_id: PaymentId, payment_preimage: PaymentPreimage, bolt12_invoice: Option<PaidBolt12Invoice>,
+        session_priv_bytes: [u8; 32], path: FailPath, from_onchain: bool, ev_completion_action: &mut Option<EventCompletionAction>,
+        pending_events: &mut Vec<(Event, Option<EventCompletionAction>)>) {
+        $body
+    }
+//@rw R5 *
+    payment.get_mut()
+//@with
+    payment
+//@rw R5 *
+    payment.get()
+//@with
+    (&*payment)
+//@rw R5 *
+    pending_events.push_back(
+//@with
+    pending_events.push(
+//@rw R8 *
+    Sha256::hash(&payment_preimage.0).to_byte_array()
+//@with
+    sha256(&payment_preimage.0)
+//@rw R5
+    Some(&path)
+//@with
+    Some(&path.p)
+//@requires
+    old(payment).has_htlcs_state(),
+    (*old(payment)) is Retryable && old(payment).privs().contains(session_priv_bytes) ==>
+        old(payment)->Retryable_pending_amt_msat >= path.p.v && (old(payment)->Retryable_pending_fee_msat is Some ==> old(payment)->Retryable_pending_fee_msat->Some_0 >= path.p.f),
+//@ensures P C03 PaymentSent-is-reported-exactly-when-the-payment-first-becomes-fulfilled-with-the-preimages-hash-the-total-and-the-fee-and-never-again
+    (*final(payment)) is Fulfilled,
+    !((*old(payment)) is Fulfilled) ==> final(pending_events)@.len() > old(pending_events)@.len(),
+    !((*old(payment)) is Fulfilled) ==> (final(pending_events)@[old(pending_events)@.len() as int].0 matches Event::PaymentSent { payment_hash, amount_msat, fee_paid_msat, payment_preimage: pp, .. }
+            && payment_hash.0 == sha256_spec(payment_preimage.0) && pp == payment_preimage && amount_msat == old(payment).spec_total() && fee_paid_msat == old(payment).spec_fee()),
+    (*old(payment)) is Fulfilled ==> forall|k: int| old(pending_events)@.len() <= k < final(pending_events)@.len() ==> !(#[trigger] final(pending_events)@[k].0 is PaymentSent),
+    forall|k: int| 0 <= k < old(pending_events)@.len() ==> final(pending_events)@[k] == old(pending_events)@[k],
+    final(payment).privs() == (if from_onchain { old(payment).privs().remove(session_priv_bytes) } else { old(payment).privs() }),
+//@mutant payment_sent_repeated_for_a_fulfilled_payment
+    if !payment.get().is_fulfilled() {
+//@with
+    if true {
+//@mutant reported_total_taken_after_the_transition
+    let amount_msat = payment.get().total_msat();
+//@with
+    let amount_msat = None;
 //@end
 }
 fn main() {}
